@@ -205,6 +205,49 @@ def refresh_interleaved(sx):
         GeckoConfig.PROTOCOL_TIMEOUT_IN_SECONDS = saved
 
 
+def burst_through_consumer(sx):
+    """two or three partial updates arrive back to back before the client's consumer task wakes (the real consume()
+    loop on the virtual loop): each is applied and each is acknowledged once"""
+    import asyncio
+    from sx.vloop import VLoop, patched_time, FakeDatagramTransport
+    from geckolib.async_spa import GeckoAsyncSpa
+    from geckolib.driver import GeckoAsyncUdpProtocol, GeckoAsyncPartialStatusBlockProtocolHandler
+    from geckolib.async_spa_descriptor import GeckoAsyncSpaDescriptor
+    from sx.loader import STRUCT_SHIM
+    from .common import content_offset
+    loop = VLoop()
+    with patched_time(loop):
+        async def ev(*a, **k):
+            pass
+        spa = GeckoAsyncSpa(CLI_ID, GeckoAsyncSpaDescriptor(SRC_ID, "spa", DEST), None, ev)
+        proto = GeckoAsyncUdpProtocol(None, DEST)
+        sent = []
+        proto.connection_made(FakeDatagramTransport(loop, proto, lambda tr, d, a: sent.append(d)))
+        spa._protocol = proto
+        blk = sx.bytes_("block", 16)
+        spa.struct.set_status_block(blk)
+        h = GeckoAsyncPartialStatusBlockProtocolHandler(proto, async_on_handled=spa._async_on_partial_status_update)
+        n = 2 + sx.choice("burst", 2)
+        ups = [(sx.int_(f"pos{i}", 0, 14), sx.bytes_(f"data{i}", 2)) for i in range(n)]
+
+        async def main():
+            c = asyncio.ensure_future(h.consume(proto))
+            await asyncio.sleep(0.05)
+            for p_, d in ups:
+                proto.datagram_received(b"STATP\x01" + STRUCT_SHIM.pack(">H", p_) + d, SENDER)
+            await asyncio.sleep(0.1 * n + 0.3)
+            c.cancel()
+        loop.run_until_complete(main(), max_time=60.0)
+        ref = blk
+        for p_, d in ups:
+            ref = _apply(ref, p_, d)
+        sx.check_bytes_equal(spa.struct.status_block, ref, "pu.block-is-fold-of-updates")
+        off = content_offset(CLI_ID, SRC_ID)
+        acks = [d for d in sent if bytes(d[off:off + 5]) == b"STATQ"]
+        sx.check(len(acks) == n, "pu.one-ack-per-message.async", lambda: f"{len(acks)} for {n}")
+    loop.cancel_all()
+
+
 def _statq(seq):
     from sx.loader import STRUCT_SHIM
     return b"STATQ" + STRUCT_SHIM.pack(">B", seq)
@@ -259,5 +302,6 @@ def units(tier):
     yield Unit("async.overlapping-changes", async_client("overlap"), fresh_checks=True)
     yield Unit("threaded.overlapping-changes", threaded_client("overlap"), fresh_checks=True)
     yield Unit("async.refresh-interleaved", refresh_interleaved, fresh_checks=True)
+    yield Unit("async.burst-through-consumer", burst_through_consumer, fresh_checks=True)
     yield Unit("async.one-byte-change", async_client(1, True), fresh_checks=True)
     yield Unit("threaded.one-byte-change", threaded_client(1, True), fresh_checks=True)
